@@ -19,6 +19,6 @@ PROP = {
 
 # (category, text, design_ref, technique)
 LEVEL = ("proof",
-         "gen_trace_eq_spec: for every well-scoped DeferLang program (defers hold arbitrary bodies: loops, labelled blocks, if, inner break/continue, nested defers), every decision sequence and every iteration bound, the trace printed by the model of the generated code (static defer stack; a block's exit code compiles and runs its deferred bodies on fall-through; a jump compiles, inline, under the stack current at the jump, the deferred bodies registered so far in every frame down to and including its target, then jumps past the exit code; loops own an empty frame) equals the structural semantics of the property (leaving a construct by any exit runs the deferred bodies registered in that activation so far, newest first, each once, each as a block activation of its own, inner before outer, nothing else) — proved in Lean by mutual structural recursion with a 'debt' invariant, abstracted over the function that compiles a deferred body and closed by induction on the re-entry depth, plus corollaries in the property's words and theorems that the pre-fix scheme was wrong. The pinned tree violated the property (break out of a loop ran outer defers early and twice; continue skipped defers; an early break/return ran unreached defers): repaired by a `fix:` commit in /repo. A `break` / `continue` inside a block CONDITION of a `while` unwound past its loop (fix 2c2d7e7); loops whose condition is a block with defers and jumps are generated too and checked against the structural semantics only (they are not in the Lean model). Each run builds a corpus of past failures and 64 (thorough 600) generated programs (2 in 5 built around a frame with an earlier defer and a deferred block with a jump of its own, 1 in 5 around two nested loops where the inner one has its own jump and a jump to the outer one past defers of the outer body) x 6 decision sequences with the real CLI and compares the executables' traces with the model and with an independent Rust re-statement of the semantics.",
+         "gen_trace_eq_spec: for every well-scoped DeferLang program (defers hold arbitrary bodies: loops, labelled blocks, if, inner break/continue, nested defers), every decision sequence and every iteration bound, the trace printed by the model of the generated code (static defer stack; a block's exit code compiles and runs its deferred bodies on fall-through; a jump compiles, inline, under the stack current at the jump, the deferred bodies registered so far in every frame down to and including its target, then jumps past the exit code; loops own an empty frame) equals the structural semantics of the property (leaving a construct by any exit runs the deferred bodies registered in that activation so far, newest first, each once, each as a block activation of its own, inner before outer, nothing else) — proved in Lean by mutual structural recursion with a 'debt' invariant, abstracted over the function that compiles a deferred body and closed by induction on the re-entry depth, plus corollaries in the property's words and theorems that the pre-fix scheme was wrong. The pinned tree violated the property (break out of a loop ran outer defers early and twice; continue skipped defers; an early break/return ran unreached defers): repaired by a `fix:` commit in /repo. A `break` / `continue` inside a block CONDITION of a `while` unwound past its loop (fix 2c2d7e7); loops whose condition is a block with defers and jumps are part of DeferLang (`Stmt.loopC`: model, structural semantics and the main theorem cover them; break_in_condition_runs_condition_defers, break_in_condition_compiled, and mid_break_in_condition_wrong / mid_continue_in_condition_wrong record what the scheme between the two fixes printed). Each run builds a corpus of past failures and 64 (thorough 600) generated programs (2 in 5 built around a frame with an earlier defer and a deferred block with a jump of its own, 1 in 5 around two nested loops where the inner one has its own jump and a jump to the outer one past defers of the outer body) x 6 decision sequences with the real CLI and compares the executables' traces with the model and with an independent Rust re-statement of the semantics.",
          "§4 C03",
          "Lean 4 proof (simulation between generated control flow and structural semantics) + end-to-end translation validation on generated programs")
